@@ -1,7 +1,7 @@
 import PydapModel.Sexp
 import PydapModel.CacheKey
 namespace Pydap.Driver
-open Pydap Sexp
+open Pydap Pydap.CK Sexp
 
 /-- text travels as the hex of its UTF-8 bytes; equality, membership, '/'-segments and prefixes are the same
     on UTF-8 bytes as on code points, so the model is run on one `Char` per byte -/
